@@ -252,7 +252,7 @@ func checkC09(c *core.Ctx) {
 	benign := []ref.Range{{From: 0, To: 0}, {From: 0, To: 1}}
 	group := func(id string, f func(tc *totalCtx) string) {
 		c.Case(id, true, func() core.Verdict {
-			tc := &totalCtx{}
+			tc := &totalCtx{budget: 3_000_000}
 			tc.install()
 			defer tensor.VerifSetHandler(nil)
 			msg := f(tc)
